@@ -164,7 +164,31 @@ pub fn c27(out: &mut Out, ex: &mut Exec, seed: u64, thorough: bool) {
             if let Some(fr) = field(cur, "fr") { if fr != "-" { let n: i64 = fr.split(|c| c == '|' || c == '#').next().and_then(|x| x.parse().ok()).unwrap_or(-1); if n != f1 { out.fail(out.lines, format!("frame list has {n} entries but depth is {f1}"), all.join("\n")); } } }
         });
     }
-    out.rule = "call-heavy random programs (JSR/JSRR/RET/TRAP/RTI dense; every fourth case in strict mode, where a RET through an uninitialised R7 or to uninitialised memory is refused and must leave the frames alone), unbalanced returns, interrupts, registered calling-convention and pass-by-register signatures at random addresses, debug frames mostly on; frame depth and the full frame list compared with the model after every step; implementation-side check: |depth delta| <= 1 and list length = depth".into();
+    // host-initiated calls (`Simulator::call_subroutine`, public API) at arbitrary pauses — after ordinary steps, after a
+    // virtual HALT (PC not advanced), after a refused fetch: the frame's caller is what `prefetch_pc()` reports at that pause
+    let mut rng2 = Rng::new(seed ^ 0x5ca1_ab1e_c27);
+    for id in 0..n / 6 {
+        let steps = 4 + rng2.below(12) as usize;
+        let o = CaseOpts { prof: Prof::Frames, strict: id % 5 == 4, real: rng2.bool(), dbg: true, ign: rng2.bool(), steps };
+        let mut lines = setup(&mut rng2, &o, 900_000 + id);
+        let mut all: Vec<String> = vec![];
+        lines.push("sim state".into());
+        let pre = rng2.below(steps as u64) as usize;
+        for k in 0..steps {
+            if k == pre || rng2.chance(1, 6) {
+                let pc_line = ex.line("sim state"); let pc = u16::from_str_radix(field(&pc_line, "pc").unwrap_or("0"), 16).unwrap_or(0);
+                let tgt = match rng2.below(4) { 0 => pc, 1 => pc.wrapping_add(rng2.below(8) as u16), 2 => *rng2.pick(&[0x0000u16, 0xFFFF, 0xFE00, 0x2FFF, 0x3000]), _ => rng2.u16() };
+                lines.push(format!("sim callsub {}", hex16(tgt))); lines.push("sim state".into());
+                out.hist.hit("host_call_subroutine");
+            }
+            lines.push("sim step".into());
+            // issue what has been queued so far (the next decision reads the current PC)
+            for l in lines.drain(..) { let r = ex.line(&l); out.op(&l, &r); all.push(l.clone()); out.evaluations += 1;
+                if r.starts_with("panic") { out.fail(out.lines, format!("panic: {l} -> {r}"), all.join("\n")); } }
+        }
+        if stats.seen.insert(crate::c08::hash_lines(&all)) { out.nontrivial += 1; }
+    }
+    out.rule = "call-heavy random programs (JSR/JSRR/RET/TRAP/RTI dense; every fourth case in strict mode, where a RET through an uninitialised R7 or to uninitialised memory is refused and must leave the frames alone), unbalanced returns, interrupts, registered calling-convention and pass-by-register signatures at random addresses, debug frames mostly on; plus host-initiated `call_subroutine` at arbitrary pauses (after steps, virtual HALT, refused fetches); frame depth and the full frame list compared with the model after every step; implementation-side check: |depth delta| <= 1 and list length = depth".into();
 }
 
 pub fn c28(out: &mut Out, ex: &mut Exec, seed: u64, thorough: bool) {
